@@ -30,7 +30,7 @@ ASSUMPTIONS = [
 ]
 FLOORS = {
     'quick': {'histories': 60, 'loads_checked': 400, 'values_compared': 1500, 'nontrivial': 150},
-    'thorough': {'histories': 3000, 'loads_checked': 50000, 'nontrivial': 15000},
+    'thorough': {'histories': 1500, 'loads_checked': 25000, 'nontrivial': 8000},
 }
 BUDGET = {'quick': 24.0, 'thorough': 600.0}
 MANIFEST = dict(
